@@ -619,10 +619,11 @@ theorem skipValue_spec (b : Buf) (d : JDoc) (i : Nat) (t : List UInt8) (hwf : d.
 /-! ### `match_str` -/
 
 theorem escChar_eq : ∀ e : UInt8, escChar e = escDecode e := by decide +kernel
-theorem escDecode_ne_zero : ∀ e c : UInt8, escDecode e = some c → c ≠ 0 := by
-  intro e
-  revert e
-  decide +kernel
+theorem escDecode_ne_some_zero : ∀ e : UInt8, escDecode e ≠ some 0 := by decide +kernel
+theorem escDecode_ne_zero (e c : UInt8) (h : escDecode e = some c) : c ≠ 0 := by
+  intro h0
+  subst h0
+  exact escDecode_ne_some_zero e h
 
 /-- reading the key string at the split point `kp | kr` -/
 theorem key_at (kp kr : List UInt8) :
@@ -928,5 +929,44 @@ theorem jsonFind_spec (lead : Ws) (d : JDoc) (trail key : List UInt8) (hl : WsWF
       | obj ms => simp [JDoc.ser] at hc; exact absurd hc.1.symm hobj
       | _ => simp [expectedFind, hsz]
     simp [this]
+
+
+/-! ### statements in list form, for `Properties/C17.lean` -/
+
+theorem isNumCh_iff : ∀ c : UInt8, isNumCh c = (c == 0 || isNumTokCh c) := by decide +kernel
+
+theorem follow_of_followOK (d : JDoc) (t : List UInt8) (h : followOK d t) : Follow d t := by
+  cases d <;> simp only [Follow] <;> try trivial
+  intro c hc
+  obtain ⟨h1, h2⟩ := h c hc
+  rw [isNumCh_iff]
+  simp [h1, h2]
+
+/-- `skip_value` started at the first byte of the text of a value stops exactly after it -/
+theorem skipValue_exact (pre : List UInt8) (d : JDoc) (post : List UInt8) (hd : d.WF) (hf : followOK d post) :
+    skipValue (pre ++ d.ser ++ post).toArray pre.length = .ok (pre.length + d.ser.length) := by
+  apply skipValue_spec _ d pre.length post hd _ (follow_of_followOK d post hf)
+  refine ⟨by simp <;> omega, ?_⟩
+  simp
+
+/-- a selected member has a value position (the inner fall-back of `expectedFind` is never used) -/
+theorem valuePos_of_findMember (key : List UInt8) : ∀ (ms : JMembers) (m : Nat),
+    findMember key ms.erase = some m → ∃ p, ms.valuePos m = some p
+  | .one wb k wk wv v wa, m, h => by
+    simp only [JMembers.erase, findMember] at h
+    split at h
+    · cases h; exact ⟨_, rfl⟩
+    · simp at h
+  | .more wb k wk wv v wa rest, m, h => by
+    simp only [JMembers.erase, findMember] at h
+    split at h
+    · cases h; exact ⟨_, rfl⟩
+    · cases hm : findMember key rest.erase with
+      | none => simp [hm] at h
+      | some m' =>
+        simp [hm] at h
+        subst h
+        obtain ⟨p, hp⟩ := valuePos_of_findMember key rest m' hm
+        simp [JMembers.valuePos, hp]
 
 end Percival.Proofs.JsonSpec
